@@ -342,8 +342,41 @@ Proof.
   rewrite (existsb_names im_id _ _ NI). eexists. reflexivity.
 Qed.
 
-(* comments: written unvalidated, so their well-formedness is a premise *)
+(* comments: co_ok is what the writer checks since /repo 9bfd7d2 (co_valid); it stays a conjunct
+   of wf_header (older statements use it) and follows from write_header succeeding
+   (write_header_co_ok below) *)
 Definition co_ok (c : bytes) : Prop := Forall (fun x => x <> 10) c /\ last c 0 <> 13.
+
+Lemma co_valid_ok c : co_valid c = true <-> co_ok c.
+Proof.
+  unfold co_valid, co_ok. rewrite andb_true_iff, !negb_true_iff. split.
+  - intros [A B]. split; [|intro E; rewrite E in B; discriminate].
+    apply Forall_forall. intros x Hx E. subst x.
+    assert (T : existsb (N.eqb 10) c = true) by (apply existsb_exists; exists 10; split; [exact Hx|reflexivity]).
+    rewrite T in A. discriminate.
+  - intros [A B]. split.
+    + destruct (existsb (N.eqb 10) c) eqn:E; [|reflexivity].
+      apply existsb_exists in E as (x & Hx & Ex). apply N.eqb_eq in Ex. subst x.
+      rewrite Forall_forall in A. exfalso. exact (A 10 Hx eq_refl).
+    + apply N.eqb_neq. exact B.
+Qed.
+
+Lemma write_co_chk_all l : forall le, write_all write_co_chk l = Some le ->
+  le = map write_co l /\ Forall co_ok l.
+Proof.
+  induction l as [|c l IH]; intros le H; cbn [write_all] in H.
+  - injection H as H. subst le. split; constructor.
+  - unfold write_co_chk at 1 in H. destruct (co_valid c) eqn:V; [|discriminate].
+    destruct (write_all write_co_chk l) as [b|] eqn:E; [|discriminate].
+    injection H as H. subst le. destruct (IH b eq_refl) as [E1 E2]. subst b.
+    split; [reflexivity|]. constructor; [apply co_valid_ok, V|exact E2].
+Qed.
+
+Lemma write_co_chk_ok l : Forall co_ok l -> write_all write_co_chk l = Some (map write_co l).
+Proof.
+  induction 1 as [|c l Hc _ IH]; [reflexivity|]. cbn [write_all map].
+  unfold write_co_chk at 1. apply co_valid_ok in Hc. rewrite Hc, IH. reflexivity.
+Qed.
 
 Lemma strip_last_last l : last l 0 <> 13 -> strip_last 13 l = l.
 Proof.
@@ -424,6 +457,8 @@ Proof.
   destruct (write_all write_sq (h_sq h)) as [lb|] eqn:EB; [|discriminate].
   destruct (write_all (write_idmap 82 71) (h_rg h)) as [lc|] eqn:EC; [|discriminate].
   destruct (write_all (write_idmap 80 71) (h_pg h)) as [ld|] eqn:ED; [|discriminate].
+  destruct (write_all write_co_chk (h_co h)) as [le|] eqn:EE; [|discriminate].
+  destruct (write_co_chk_all _ _ EE) as [EE' _]. subst le.
   cbn [option_map] in H. apply Some_inj in H. subst t.
   (* the @HD phase *)
   assert (PA : Forall line_ok la /\ forall rest, exists c1,
@@ -491,6 +526,8 @@ Proof.
   destruct (write_all write_sq (h_sq h)) as [lb|] eqn:EB; [|discriminate].
   destruct (write_all (write_idmap 82 71) (h_rg h)) as [lc|] eqn:EC; [|discriminate].
   destruct (write_all (write_idmap 80 71) (h_pg h)) as [ld|] eqn:ED; [|discriminate].
+  destruct (write_all write_co_chk (h_co h)) as [le|] eqn:EE; [|discriminate].
+  destruct (write_co_chk_all _ _ EE) as [EE' _]. subst le.
   apply Some_inj in H. subst ls.
   (* the @HD phase *)
   assert (PA : Forall line_ok la /\ forall rest, exists c1,
